@@ -480,7 +480,7 @@ class Harness:
                 for pid, val in self.outcomes.items():
                     if leaf is val:
                         found.append((pid, "exception"))
-                    elif isinstance(leaf, OrphanedReturn) and leaf.value is val:
+                    elif isinstance(leaf, OrphanedReturn) and getattr(leaf, "value", OrphanedReturn) is val:
                         found.append((pid, "orphan"))
                 if not found:
                     out["cause_kind"] = "other:" + type(leaf).__name__
